@@ -359,7 +359,7 @@ def oddCount (fl : List Loc) (s : Loc) : Bool := xorSum fl (fun f => f == s)
 def flipOK (lat : Lattice) (faces : Loc → Option (List Loc)) (loc : Loc) : Bool :=
   match faces loc with
   | none => false
-  | some fl => fl.all lat.isStab && lat.stabs.all fun s => oddCount fl s == faceHas lat s loc
+  | some fl => lat.stabs.all fun s => oddCount fl s == faceHas lat s loc
 
 /-- consistency of a flip table with the face stabilizers, on every edge of the lattice -/
 def flipTableOK (lat : Lattice) (faces : Loc → Option (List Loc)) : Bool :=
@@ -376,8 +376,5 @@ def sweepEdgesOK3D (lat : Lattice) : Bool :=
     (!(lat.isStab (yFace3D lat v) && lat.isStab (zFace3D lat v)) || lat.isQubit (xEdge3D lat v)) &&
     (!(lat.isStab (xFace3D lat v) && lat.isStab (zFace3D lat v)) || lat.isQubit (yEdge3D lat v)) &&
     (!(lat.isStab (xFace3D lat v) && lat.isStab (yFace3D lat v)) || lat.isQubit (zEdge3D lat v))
-
-/-- stabilizer locations are pairwise distinct (Python: keys of `stabilizer_index`) -/
-def stabsNodup (lat : Lattice) : Bool := lat.stabs.eraseDups.length == lat.stabs.length
 
 end Panqec.Sweep
